@@ -167,7 +167,7 @@ theorem orbit_frame_roundtrip (t : Tag) (ref x : St) (h : NonDeg ref.p ref.v) :
   simp only [toLocal_tMul_mul t _ _ _ h, add_sub_V3]
 
 /-- … and from the attached frame to the parent and back. -/
-theorem orbit_frame_roundtrip' (t : Tag) (ref y : St) (h : NonDeg ref.p ref.v) :
+theorem orbit_frame_roundtrip_back (t : Tag) (ref y : St) (h : NonDeg ref.p ref.v) :
     frameTo t ref (frameFrom t ref y) = y := by
   unfold frameFrom frameTo
   simp only [sub_add_V3, toLocal_mul_tMul t _ _ _ h]
